@@ -10,13 +10,8 @@ func verifAssert(bool) {}
 
 //@ import utils @/utils
 
-// cdWithin(cd, ts, start): timestamp ts (abs ns) lies in the window of candle duration cd that starts at start
-//@ ghost func cdWithin(cd int, ts int, tsloc int, start int) bool
-
-//@ func (*@/utils.CandleDuration).IsWithin
-//@ trusted "window membership (C31 covers it); abstracted by cdWithin for the candle contracts"
-//@ pure
-//@ ensures result == cdWithin(cd, abs(ts), loc(ts), abs(start))
+// cdWithin(cd, ts, tsloc, start): window membership as computed by utils.CandleDuration.IsWithin (its contract, in
+// utils/zz_verif_timeframe.go, is checked for C31; the candle contracts only use the abstraction)
 
 // One accepted row updates the candle exactly like one step of the OHLC fold: the first row sets all four prices;
 // later rows raise High / lower Low, and replace Open (Close) only when they are strictly earlier (later) than every
